@@ -39,7 +39,7 @@ struct Orig {
 };
 // bump options
 //  "auto" no feerate | "rate:+<d>" original feerate + d sat/kvB | "rate:x10" | "rate:x20" | "rate:max" (above the maximum fee) | "outputs" new
-//  outputs | "chgidx" original_change_index = the real change | "reduce" original_change_index = recipient 0 |
+//  outputs | "shrink:<d>" / "grow:<d>" outputs that change the size + threshold feerate for the new size + d | "chgidx" original_change_index = the real change | "reduce" original_change_index = recipient 0 |
 //  unbumpable: "u:confirmed" "u:replaced" "u:walletchild" "u:poolchild" "u:foreign" "u:unknown" "u:both" "u:range"
 struct Spec { unsigned mask; Orig o; std::string bump; std::vector<std::string> bumps; std::string Str() const { return strprintf("coin mask %u | %s | bump=%s", mask, o.Str(), bump); } };
 
@@ -84,6 +84,9 @@ struct Job {
     {
         if (!Setup()) return;
         for (auto& b : sp.bumps) {
+            // the size-changing output replacements need something to drop (a second recipient) / something to take from (change)
+            if (b.rfind("shrink:", 0) == 0 && sp.o.nrec != 2) continue;
+            if (b.rfind("grow:", 0) == 0 && !(sp.o.nrec == 1 && orig_change_pos)) continue;
             out.send_counts();
             out.flush();
             fflush(stdout);
@@ -287,6 +290,36 @@ struct Job {
             unsigned ri = 0;
             while (orig_change_pos && ri == *orig_change_pos) ri++;
             new_outputs[ri] = CTxOut(orig->vout[ri].nValue - 20000, GetScriptForDestination(dests[2]));
+        } else if (sp.bump.rfind("shrink:", 0) == 0 || sp.bump.rfind("grow:", 0) == 0) {
+            // caller-supplied outputs that make the replacement smaller (second recipient dropped) or larger (a recipient
+            // added) than the original, with an explicit feerate at the threshold "old fee + incremental relay fee" computed
+            // for the NEW size, one below and one above it
+            const bool shrink = sp.bump[0] == 's';
+            new_outputs.assign(orig->vout.begin(), orig->vout.end());
+            if (shrink) {
+                const CScript second = GetScriptForDestination(dests[1]);
+                auto it = std::find_if(new_outputs.begin(), new_outputs.end(), [&](const CTxOut& o) { return o.scriptPubKey == second; });
+                if (it == new_outputs.end()) { out.count("option_not_applicable"); return; }
+                new_outputs.erase(it);
+            } else {
+                new_outputs.emplace_back(100000, GetScriptForDestination(dests[2]));
+            }
+            CMutableTransaction t(*orig);
+            for (auto& in : t.vin) { in.scriptSig.clear(); in.scriptWitness.SetNull(); }
+            t.vout = new_outputs;
+            int64_t new_size;
+            {
+                LOCK(w.W().cs_wallet);
+                new_size = wallet::CalculateMaximumSignedTxSize(CTransaction(t), &w.W(), nullptr).vsize;
+            }
+            if (new_size <= 0) throw std::logic_error("cannot size the replacement");
+            const CAmount need = orig_fee + w.W().chain().relayIncrementalFee().GetFee(new_size);
+            CAmount r = need * 1000 / new_size;
+            while (CFeeRate(r).GetFee(new_size) < need) r++;
+            while (r > 1 && CFeeRate(r - 1).GetFee(new_size) >= need) r--;
+            requested = r + atoll(sp.bump.c_str() + (shrink ? 7 : 5));
+            bcc.m_feerate = CFeeRate(requested);
+            out.count(shrink ? "shrink_calls" : "grow_calls");
         } else if (sp.bump == "chgidx") {
             if (!orig_change_pos) { out.count("option_not_applicable"); return; }
             change_index = *orig_change_pos;
@@ -310,6 +343,8 @@ struct Job {
         if (res != fb::Result::OK) {
             if (!check) return false;
             out.count("bump_refused");
+            if (sp.bump.rfind("shrink:", 0) == 0) out.count("shrink_refused");
+            if (sp.bump.rfind("grow:", 0) == 0) out.count("grow_refused");
             std::string e;
             for (auto& x : errors) e += x.original + "; ";
             if (e.find("nternal bug") != std::string::npos) Viol("internal-bug", "CreateRateBumpTransaction reported an internal inconsistency: " + e);
@@ -393,12 +428,27 @@ struct Job {
         if (fb::CommitTransaction(w.W(), oid, std::move(to_commit), e2, bumped) != fb::Result::OK) { Viol("commit-failed", "feebumper::CommitTransaction refused the replacement it just created"); return false; }
         if (bumped != tx.GetHash()) Viol("bumped-txid", "CommitTransaction reports another txid than the replacement's");
         MempoolAcceptResult ar = w.Submit(MakeTransactionRef(tx));
-        if (ar.m_result_type != MempoolAcceptResult::ResultType::VALID) { Viol("mempool-rejects:" + ar.m_state.GetRejectReason(), "the mempool rejects the replacement: " + ar.m_state.ToString(), EncodeHexTx(tx)); return false; }
+        if (ar.m_result_type != MempoolAcceptResult::ResultType::VALID) {
+            // One rejection class gets its own stable key: the replacement obeys the absolute-fee rules the wallet checks
+            // (old fee + incremental relay fee for the new size) but, being larger than the original, has a LOWER feerate
+            // than the original, which the mempool's feerate-diagram rule refuses. The wallet has already committed it
+            // and marked the original as replaced.
+            const bool lower_feerate = (__int128)fee * orig_vsize <= (__int128)orig_fee * vsize;
+            if (lower_feerate && fee >= orig_fee + incr.GetFee(vsize) && ar.m_state.ToString().find("feerate diagram") != std::string::npos) {
+                out.count("replacement_feerate_not_improved");
+                Viol("replacement-feerate-not-improved", strprintf("the wallet created and committed a replacement that pays the old fee + incremental fee (%d >= %d + %d) but has a lower feerate than the original (%d sat / %d vB vs %d sat / %d vB); the mempool rejects it (%s) while the wallet has marked the original as replaced", fee, orig_fee, incr.GetFee(vsize), fee, vsize, orig_fee, orig_vsize, ar.m_state.ToString()), EncodeHexTx(tx));
+            } else {
+                Viol("mempool-rejects:" + ar.m_state.GetRejectReason(), "the mempool rejects the replacement: " + ar.m_state.ToString(), EncodeHexTx(tx));
+            }
+            return false;
+        }
         std::set<Txid> replaced;
         for (auto& r : ar.m_replaced_transactions) replaced.insert(r->GetHash());
         if (replaced != std::set<Txid>{oid}) Viol("replaced-set", strprintf("the mempool reports %u replaced transactions, expected exactly the original", (unsigned)replaced.size()));
         if (w.n.pool().exists(oid)) Viol("original-still-in-mempool", "the original is still in the mempool");
         out.count("bump_accepted");
+        if (sp.bump.rfind("shrink:", 0) == 0) out.count("shrink_accepted");
+        if (sp.bump.rfind("grow:", 0) == 0) out.count("grow_accepted");
         // wallet bookkeeping: the pair is linked, the original cannot be bumped again, the replacement can
         {
             LOCK(w.W().cs_wallet);
@@ -446,7 +496,7 @@ int main(int argc, char** argv)
                     if (shape != 3 && fr == 2500) continue;
                     origs.push_back({nrec, shape, rbf, fr});
                 }
-    std::vector<std::string> bumps{"auto", "rate:+99", "rate:+100", "rate:x10", "rate:x20", "rate:max", "outputs", "chgidx", "reduce",
+    std::vector<std::string> bumps{"auto", "rate:+99", "rate:+100", "rate:x10", "rate:x20", "rate:max", "outputs", "shrink:-1", "shrink:+0", "shrink:+1", "grow:-1", "grow:+0", "grow:+1", "grow:+3000", "chgidx", "reduce",
                                    "u:confirmed", "u:replaced", "u:walletchild", "u:poolchild", "u:foreign", "u:unknown", "u:both", "u:range"};
     if (big) { bumps.push_back("rate:+0"); bumps.push_back("rate:+1000"); bumps.push_back("rate:+5000"); }
     std::vector<Spec> specs;
@@ -496,11 +546,11 @@ int main(int argc, char** argv)
     E.assume("this tree does not require BIP125 signalling for replacement (full RBF); originals are made with signalling on and off");
     E.set("coin_sets", (uint64_t)masks.size());
     E.set("originals_per_coin_set", (uint64_t)origs.size());
-    for (const char* k : {"originals", "original_not_creatable", "original_not_accepted", "option_not_applicable", "unbumpable_setup_failed", "bump_calls", "bump_created", "bump_refused", "bump_accepted", "bump_with_change", "bump_without_change", "bump_added_input", "refused_rate_max", "unbumpable_cases",
+    for (const char* k : {"originals", "original_not_creatable", "original_not_accepted", "option_not_applicable", "unbumpable_setup_failed", "bump_calls", "bump_created", "bump_refused", "bump_accepted", "bump_with_change", "bump_without_change", "bump_added_input", "shrink_calls", "shrink_accepted", "shrink_refused", "grow_calls", "grow_accepted", "grow_refused", "replacement_feerate_not_improved", "refused_rate_max", "unbumpable_cases",
                           "refused_u:confirmed", "refused_u:replaced", "refused_u:walletchild", "refused_u:poolchild", "refused_u:foreign", "refused_u:unknown", "refused_u:both", "refused_u:range"})
         E.set(k, cnt(k));
     for (auto& s : pool.samples) E.sample(s);
-    E.sample("bump options: auto | rate:+d (original feerate + d sat/kvB) | rate:x10 | rate:x20 | rate:max | outputs (first recipient replaced) | chgidx (original_change_index = change) | reduce (original_change_index = a recipient) | u:* unbumpable cases");
+    E.sample("bump options: auto | rate:+d (original feerate + d sat/kvB) | rate:x10 | rate:x20 | rate:max | outputs (first recipient replaced) | shrink:d / grow:d (supplied outputs drop the second recipient / add a recipient, explicit feerate = threshold for the new size + d sat/kvB, d in -1,0,+1, and +3000 for grow) | chgidx (original_change_index = change) | reduce (original_change_index = a recipient) | u:* unbumpable cases");
     if (cnt("harness_error")) {
         vx::write_evidence();
         printf("HARNESS-ERROR %llu cases failed inside the harness\n", (unsigned long long)cnt("harness_error"));
@@ -508,7 +558,7 @@ int main(int argc, char** argv)
         return 2;
     }
     if (pool.complete && vx::ctx().replay.empty() && vx::rep().violations == 0) {
-        for (const char* k : {"bump_accepted", "bump_refused", "bump_with_change", "bump_without_change", "bump_added_input", "refused_rate_max", "refused_u:confirmed", "refused_u:replaced", "refused_u:walletchild", "refused_u:poolchild", "refused_u:foreign", "refused_u:unknown", "refused_u:both", "refused_u:range"})
+        for (const char* k : {"bump_accepted", "bump_refused", "bump_with_change", "bump_without_change", "bump_added_input", "shrink_accepted", "shrink_refused", "grow_accepted", "grow_refused", "refused_rate_max", "refused_u:confirmed", "refused_u:replaced", "refused_u:walletchild", "refused_u:poolchild", "refused_u:foreign", "refused_u:unknown", "refused_u:both", "refused_u:range"})
             if (!cnt(k)) { vx::write_evidence(); printf("HARNESS-ERROR outcome class '%s' never occurred: vacuous run\n", k); return 2; }
     }
     return vx::finish();
